@@ -24,11 +24,22 @@ use std::time::SystemTime;
 
 const MAX_DECIMAL_U64_BYTES: usize = 20; // u64::max_value().to_string().len()
 
+/// Truncates a `SystemTime` to whole seconds, the granularity of an HTTP-date.
+fn truncate_to_secs(t: SystemTime) -> SystemTime {
+    match t.duration_since(SystemTime::UNIX_EPOCH) {
+        Ok(d) => SystemTime::UNIX_EPOCH + std::time::Duration::from_secs(d.as_secs()),
+        Err(_) => t,
+    }
+}
+
 fn parse_modified_hdrs(
     etag: &Option<HeaderValue>,
     req_hdrs: &HeaderMap,
     last_modified: Option<SystemTime>,
 ) -> Result<(bool, bool), &'static str> {
+    // HTTP-dates have one-second granularity; compare against the `Last-Modified` value that
+    // is actually served rather than the sub-second modification time.
+    let last_modified = last_modified.map(truncate_to_secs);
     let precondition_failed = if !etag::any_match(etag, req_hdrs)? {
         true
     } else if let (Some(ref m), Some(since)) =
